@@ -146,6 +146,7 @@ func doRange(ts []int64) rangeCase {
 type tnode struct {
 	Name     string
 	Kind     string // "reg" | "sym" | "fifo" | "dir"
+	Target   string // sym: what it points to ("dangling", "dir-inside", "file-inside", "file-outside", "dir-outside", "fifo-outside", "loop")
 	Children []*tnode
 }
 
@@ -183,16 +184,22 @@ func genTree(rng *rand.Rand, depth int, fifoOK bool) []*tnode {
 		used[nm] = true
 		k := "reg"
 		switch r := rng.Intn(10); {
-		case r < 2:
+		case r < 3:
 			k = "sym"
-		case r == 2 && fifoOK:
+		case r == 3 && fifoOK:
 			k = "fifo"
 		}
-		out = append(out, &tnode{Name: nm, Kind: k})
+		nd := &tnode{Name: nm, Kind: k}
+		if k == "sym" {
+			nd.Target = symTargets[rng.Intn(len(symTargets))]
+		}
+		out = append(out, nd)
 	}
 	sort.Slice(out, func(i, j int) bool { return out[i].Name < out[j].Name })
 	return out
 }
+
+var symTargets = []string{"dangling", "dir-inside", "file-inside", "file-outside", "dir-outside", "fifo-outside", "loop", "dir-inside", "dir-outside"}
 
 func hasFifo(ns []*tnode) bool {
 	for _, n := range ns {
@@ -203,17 +210,38 @@ func hasFifo(ns []*tnode) bool {
 	return false
 }
 
-func makeTree(dir string, ns []*tnode) {
+// makeTree creates the nodes in dir; fix is a directory outside the tree that
+// holds a regular file, a directory and a fifo for links to point at.
+func makeTree(dir, fix string, ns []*tnode) {
 	for _, n := range ns {
 		p := filepath.Join(dir, n.Name)
 		switch n.Kind {
 		case "dir":
 			must(os.Mkdir(p, 0755))
-			makeTree(p, n.Children)
+			makeTree(p, fix, n.Children)
 		case "reg":
 			must(ioutil.WriteFile(p, []byte("x"), 0644))
 		case "sym":
-			must(os.Symlink("nowhere-or-somewhere", p))
+			t := "nowhere-or-somewhere"
+			switch n.Target {
+			case "dir-inside":
+				t = "." // the directory that contains the link
+			case "file-inside":
+				for _, o := range ns {
+					if o.Kind == "reg" {
+						t = o.Name
+					}
+				}
+			case "file-outside":
+				t = filepath.Join(fix, "file.txt")
+			case "dir-outside":
+				t = filepath.Join(fix, "dir")
+			case "fifo-outside":
+				t = filepath.Join(fix, "fifo")
+			case "loop":
+				t = n.Name
+			}
+			must(os.Symlink(t, p))
 		case "fifo":
 			must(syscall.Mkfifo(p, 0644))
 		}
@@ -222,10 +250,15 @@ func makeTree(dir string, ns []*tnode) {
 
 func doTree(root string, n int, ns []*tnode) treeCase {
 	dir := filepath.Join(root, "t"+strconv.Itoa(n))
+	fix := dir + "-fix"
+	must(os.MkdirAll(filepath.Join(fix, "dir"), 0755))
+	must(ioutil.WriteFile(filepath.Join(fix, "file.txt"), []byte("x"), 0644))
+	must(syscall.Mkfifo(filepath.Join(fix, "fifo"), 0644))
 	must(os.Mkdir(dir, 0755))
-	makeTree(dir, ns)
+	makeTree(dir, fix, ns)
 	l, s := cmd.VerifArtifacts(dir)
 	os.RemoveAll(dir)
+	os.RemoveAll(fix)
 	return treeCase{ns, hasFifo(ns), l, s}
 }
 
@@ -313,7 +346,7 @@ type play struct {
 
 func (p *play) config() string {
 	var sb strings.Builder
-	sb.WriteString("role person\n  :run echo hello\n  :mk echo data >file.txt; cp file.txt copy.txt; cp -b file.txt copy.txt; echo b >'notes~'; echo e >'#edit#'; echo h >'#half~'; mkdir -p 'old~'; echo k >'old~/kept.txt'; test -e pipe1 || mkfifo pipe1\n")
+	sb.WriteString("role person\n  :run echo hello\n  :mk echo data >file.txt; cp file.txt copy.txt; cp -b file.txt copy.txt; echo b >'notes~'; echo e >'#edit#'; echo h >'#half~'; mkdir -p 'old~'; echo k >'old~/kept.txt'; test -e pipe1 || mkfifo pipe1; mkdir -p data.v1; ln -sfn data.v1 current; ln -sfn file.txt cur.txt; ln -sfn nowhere dangling; ln -sfn pipe1 plink; ln -sfn /etc outside; ln -sfn selfloop selfloop; for n in $(seq 250); do test -e spot.done && break; sleep 0.02; done; sleep 0.2\n")
 	if p.Fouled && (p.FoulKind == "action" || p.FoulKind == "early") {
 		sb.WriteString("  :bad echo failing >&2; false\n")
 	}
@@ -324,7 +357,10 @@ func (p *play) config() string {
 	if p.PastSecs > 0 {
 		sb.WriteString("echo \"$(date -u -d '-" + strconv.Itoa(p.PastSecs) + " seconds' +%Y-%m-%dT%H:%M:%S.%3NZ) old 1\"; ")
 	}
-	sb.WriteString("sleep 0.3\n")
+	// the last action waits for this marker (and a little longer), so that
+	// the lines above have reached the signal filters before the play ends,
+	// however loaded the machine is; the play kills the spotlight at the end
+	sb.WriteString("touch spot.done; sleep 30\n")
 	sb.WriteString("  signal v scalar at (?P<ts_deltasecs>) val (?P<scalar>\\d+)\n")
 	sb.WriteString("  signal o scalar at (?P<ts_rfc3339>) old (?P<scalar>\\d+)\n")
 	sb.WriteString("end\ncast\n  alice plays person\nend\nscript\n  tempo 30ms\n")
